@@ -1063,7 +1063,7 @@ class W(object):
             key = "%s|%s|%s|%s" % (pre, cv.kind, pcl, "B" if pc == self.BASIC else "N")
             desc = {"curve": cv.name, "d": hx(d), "entries": size}
             if not self.begin(key, desc, nontrivial=P is not None):
-                if ctx.only is not None and P is not None:
+                if ctx.only is not None:
                     # replay of another key: the table is still needed, build it outside any case
                     tab = R.mem(self.SZ * size, 0x5A)
                     self.put(cv, self.a, P, pc)
